@@ -288,10 +288,11 @@ def cl_reference(block, relaxed):
             bad = True
         v = raw.strip(ISSPACE)
         if relaxed and b"," in v:
-            items = [x.strip(ISSPACE) for x in v.split(b",")]
-            items = [x for x in items if x]
+            # RFC 9110 5.6.1: members that are empty or only optional whitespace are ignored; any other member counts, so a
+            # member made of other white space only (VT, FF) is a member without a value
+            items = [x.strip(ISSPACE) for x in v.split(b",") if x.strip(b" \t\r\n") != b""]
             if not items:
-                bad = True   # a list without a single value is not a Content-Length
+                bad = True   # a list without a single member is not a Content-Length
             values += items
         else:
             values.append(v)
@@ -417,9 +418,9 @@ def classify(line, impl, why):
     for v in _cl_lists(block):
         elems = v.split(b",")
         # an element that strListGetItem does not skip (not only SP HT CR LF) but that is empty after its isspace() trim
-        if any(e.strip(b" \t\r\n") != b"" and e.strip(ISSPACE) == b"" for e in elems[:-1]):
+        if any(e.strip(b" \t\r\n") != b"" and e.strip(ISSPACE) == b"" for e in elems):
             trunc = True
-        if all(e.strip(ISSPACE) == b"" for e in elems):
+        if all(e.strip(b" \t\r\n") == b"" for e in elems):
             empty = True
     if trunc:
         return "C26-list-truncated"
